@@ -168,20 +168,15 @@ Section Rename.
   Qed.
 
   Theorem model_rename : forall e gs glo cs outs outs' t,
-    D3 e gs cs outs = true -> D3 e gs (map ren_clause cs) outs' = true ->
+    D10 e gs cs outs = true -> D10 e gs (map ren_clause cs) outs' = true ->
     process_pattern e gs glo cs empty_table = Ok t ->
     exists t', process_pattern e gs glo (map ren_clause cs) empty_table = Ok t' /\
                Forall2 row_equiv (trows t') (map ren_row (trows t)).
   Proof.
     intros e gs glo cs outs outs' t H H' Et.
-    destruct (D3_parts _ _ _ _ H) as [Hks [Hsl [H14 [Hoid [Hsb [Hg [HD [Hne _]]]]]]]].
-    destruct (D3_parts _ _ _ _ H') as [_ [_ [_ [_ [_ [_ [HD' [Hne' _]]]]]]]].
-    destruct cs as [|c cs]; [congruence|].
-    destruct (pattern_is_solutions e gs glo Hks Hsl H14 Hoid Hsb Hg c cs HD) as [t0 [Et0 R0]]. rewrite Et in Et0. inversion Et0; subst t0.
-    cbn [map] in *.
-    destruct (pattern_is_solutions e gs glo Hks Hsl H14 Hoid Hsb Hg (ren_clause c) (map ren_clause cs) HD') as [t' [Et' R']].
-    exists t'. split; [exact Et'|].
-    change (ren_clause c :: map ren_clause cs) with (map ren_clause (c :: cs)) in R'. rewrite spec_solutions_rename in R'.
+    destruct (pattern_is_steps10 e gs glo cs outs H) as [t0 [Et0 R0]]. rewrite Et in Et0. inversion Et0; subst t0.
+    destruct (pattern_is_steps10 e gs glo (map ren_clause cs) outs' H') as [t' [Et' R']].
+    exists t'. split; [exact Et'|]. rewrite spec_solutions_rename in R'.
     eapply Forall2_row_equiv_trans; [exact R'|].
     clear -R0 f_inj f_nil. induction R0; cbn; constructor; [|assumption]. apply row_equiv_sym. apply ren_row_equiv. exact H.
   Qed.
